@@ -415,6 +415,8 @@ func concScenario(variant int) *engine.Scenario {
 	return sc
 }
 
+func ConcScenarios() []*engine.Scenario { return concScenarios() }
+
 func concScenarios() []*engine.Scenario {
 	return []*engine.Scenario{concScenario(0), concScenario(1), concScenario(2)}
 }
